@@ -282,7 +282,7 @@ def _run_step(case):
         ok = ~near
         skipped += int(near.sum())
         for v in (0.0, 2.0, -2.0):
-            datas = [('zero', np.zeros((nq, nr))), ('dense', dense)] + ([('tiny', 1e-11 * dense)] if v == 2.0 else [])      # the step is affine in f
+            datas = [('zero', np.zeros((nq, nr))), ('dense', dense)] + ([('tiny', 1e-20 * dense)] if v == 2.0 else [])      # the step is affine in f
             if dt in (1.0,) and v == 0.0 and case['tier'] == 'thorough':
                 for a, b in itertools.product(range(nq), range(nr)):
                     e = np.zeros((nq, nr))
